@@ -2,14 +2,40 @@ from props_common import B
 
 PROP = {
     "crate": "c12",
-    "rule": "placeholder",
+    "rule": "Seven case kinds per backend, all operands finite and non-degenerate. lerp-move-clamp (all 7 float vector types): a pair of moderate vectors (b independent, or at a constructed "
+            "distance from a incl. the 1e-4 early return +- 10^-j and tiny distances), s (0, 1, 1/2 forced, inside, a few outside), a step d relative to the remaining distance "
+            "(0, part, just before, exactly, just beyond, far beyond) and length bounds relative to |a|; lerp is evaluated at 0, 1 and s. rotate_towards (Vec2, Vec3, Vec3A, DVec2, DVec3) "
+            "and slerp (Vec3, Vec3A, DVec3): two directions, independent or at a constructed angle (10^-d from parallel or from opposite with d up to 8 / 16, exactly parallel / opposite, "
+            "at the documented 1 - 3e-7 threshold +- 10^-j, uniform), equal or independent lengths in [2^-10, 2^10], steps as above incl. negative. quat-interp (Quat, DQuat): unit "
+            "quaternion pairs built the same way in 4D (thresholds 1 - EPSILON and the 1e-4 early return of rotate_towards), either sign of the second (long way round), s, a second s "
+            "and max_angle. rotation-arc: unit 3D and 2D pairs (threshold 1 - 2 EPSILON). ortho: unit vectors over the whole sphere incl. z = -1, z = +-0 and 10^-d from the poles, plus "
+            "an arbitrary non-zero vector. floatext: f32 / f64 scalars. A case is non-trivial when the operands are not both axis-aligned and s / the step is strictly inside its range, "
+            "or the case lies within 1e-3 (relative) of a documented threshold; cases within rounding slack of a threshold (either branch's documented answer accepted) and cases whose "
+            "angular clause is vacuous (bound above 1 rad) are tallied as boundary and not counted. distinct = distinct hash of (type, backend, operand bits).",
     "builds": {
         "quick": [B("stable"), B("nightly", 0.25, False)],
         "thorough": [B("stable"), B("fma", 0.5), B("nightly", 0.5, False)],
     },
-    "technique": "placeholder",
-    "level_text": "placeholder",
-    "level_note": "placeholder",
+    "technique": "property-based testing: constructed pairs of directions / unit quaternions at prescribed angles (nearly equal, nearly opposite, exactly opposite, at every documented "
+                 "threshold) and steps relative to the remaining distance / angle, judged against f64 (f32 types) / double-double (f64 types) geometric references with "
+                 "conditioning-derived tolerances, in the SSE2 (own polynomial sine in Quat::slerp), scalar-math, libm, nightly core-simd and (+fma,+avx2) builds",
+    "level_text": "Generated-input search. Vector lerp: s = 0 and s = 1 return the operands exactly, the affine value in between. FloatExt lerp/inverse_lerp/remap: exact where the formula "
+                  "is exact (lerp(.,0), inverse_lerp endpoints, remap(in_start)), a few u elsewhere. Quat::slerp / vector slerp: the result is compared as a vector with the reference "
+                  "point at angle s*theta on the shorter arc with the interpolated length; Quat::lerp with the normalised chord, monotone in s (quaternion results are compared as rotations, "
+                  "q ~ -q). move_towards: the target bit for bit within reach, else the point at distance d. rotate_towards: length preserved, rotation by min(max_angle, theta) in the plane "
+                  "of the operands (towards the opposite for negative angles, at most pi away). from_rotation_arc(_colinear/_2d): unit quaternion, q*a = b (or +-b with the minimal angle). "
+                  "clamp_length*: input bit-identical inside the bounds, otherwise same direction on the bound. any_ortho*: orthogonal / orthonormal to 16 u. Angle-derived tolerances: the "
+                  "interval of the angle glam may have computed (6e-7 polynomial arccos + 16u/max(sin, sqrt u); atan2 for obtuse vector slerp) is pushed through the reference, plus "
+                  "16 u (1 + (|1-s|+|s|)/sin theta) rounding; rotation arcs 34 u/sin theta; where a bound exceeds 1 rad only the well-conditioned clauses are judged. Within rounding slack "
+                  "of a documented threshold either branch's documented answer is accepted. Headroom of every comparison is recorded. Exploration, not proof.",
+    "level_note": "Trusted: rustc f64 arithmetic and std sin/cos/atan2/sqrt in f64, the double-double routines of vcore, proptest, the harness. Quaternion results are moved out with to_array and "
+                  "rotated by the harness's own quaternion formula. NEON/wasm32 backends cannot be built here.",
     "design_ref": "DESIGN.md section 5 C12",
-    "assumptions": [],
+    "assumptions": [
+        "the f64 / double-double evaluation of the reference geometry is exact enough (trigonometric factors are taken from f64 std functions, error <= 2 u64 relative)",
+        "acos_approx's own error is bounded by 6e-7 and the SSE2 polynomial sine inside Quat::slerp by 1e-6/max(sin theta, sqrt u) on the result (DESIGN.md section 4)",
+        "Quat::lerp is judged as normalised linear interpolation (endpoints, shorter arc, chord equality, monotone angle), not for constant angular speed (DESIGN clause note)",
+        "move_towards with a negative step and quaternion rotate_towards beyond -theta are not documented and not judged beyond 'moves away, never further than the angle itself'",
+        "NEON and wasm32 sources are not compiled or executed (no target available offline)",
+    ],
 }
